@@ -330,5 +330,5 @@ def run(chk, replay=None):
                 chk.fail(sig, case, d)
 
     sweep(gen_cases(chk, n))
-    chk.deep_search = lambda: sweep(gen_cases(chk, 4 * n), oracle_only=True)
+    chk.deep_search = lambda: sweep(gen_cases(chk, 2 * n), oracle_only=True)
     return chk.finish()
